@@ -759,7 +759,7 @@ def run_wait(case, st):
         st.traces += 1
         st.transitions += len(s.trace)
         if s.pre:
-            st.nontrivial.add(("wait", tuple(frames), case["pre_received"], tuple(t[1] for t in s.trace)))
+            st.nontrivial_n += 1
         rc = dict(case, schedule=[t[1] for t in s.trace])
         if deadlock:
             st.violation("C15:wait:deadlock", rc, "no deadlock", deadlock)
